@@ -25,7 +25,7 @@ struct C02;
 /// 1 = M (member with own-rows rights on everything, DISABLED at T_DIS)
 /// 2 = N (never a member)
 /// 3 = L (member enabled only from T_LATE on)
-/// 4 = F (member with the all-rows right)
+/// 4 = F (member with the all-rows right; in the other room R2 only until T_LATE)
 const AUTHORS: u8 = 5;
 
 #[derive(Clone, Debug, Serialize, Deserialize, PartialEq)]
@@ -346,7 +346,7 @@ impl Property for C02 {
                     ] } }"
                 } else {
                     "mutate { sys.Room { admin:[{verif_key:$me}] authorisations:[
-                        { name:\"all\" rights:[{entity:\"*\" mutate_self:true mutate_all:true}] users:[{verif_key:$e},{verif_key:$v},{verif_key:$m},{verif_key:$me}] }
+                        { name:\"all\" rights:[{entity:\"*\" mutate_self:true mutate_all:true}] users:[{verif_key:$e},{verif_key:$v},{verif_key:$m},{verif_key:$me},{verif_key:$f}] }
                     ] } }"
                 };
                 let res = match admin.mutate(q, Some(p)).await {
@@ -358,17 +358,17 @@ impl Property for C02 {
                 };
                 let v: serde_json::Value = serde_json::from_str(&res).unwrap();
                 let id64 = v["sys.Room"]["id"].as_str().unwrap().to_string();
-                let g1 = v["sys.Room"]["authorisations"][1]["id"].as_str().unwrap_or("").to_string();
+                let g1 = v["sys.Room"]["authorisations"][if which == 0 { 1 } else { 0 }]["id"].as_str().unwrap_or("").to_string();
                 rooms.push((uid_of(&id64), id64, g1));
             }
             let (r, r64, members_gid) = rooms[0].clone();
-            let (r2, r2_64, _) = rooms[1].clone();
+            let (r2, r2_64, r2_gid) = rooms[1].clone();
             // honest rows by the admin and (signed by the harness) by M, written through the admin's API where possible
             let mut honest: Vec<(String, u8)> = vec![]; // id, entity
-            for i in 0..4u8 {
+            for i in 0..5u8 {
                 Clock::advance(10);
                 let mut p = Parameters::new();
-                p.add("room", if i == 3 { r2_64.clone() } else { r64.clone() }).unwrap();
+                p.add("room", if i >= 3 { r2_64.clone() } else { r64.clone() }).unwrap();
                 p.add("t", format!("honest {}", i)).unwrap();
                 let q = if i % 2 == 0 { "mutate { app.Item { room_id:$room name:$t links:[{name:$t}] } }" } else { "mutate { app.Note { room_id:$room text:$t } }" };
                 if let Ok(js) = admin.mutate(q, Some(p)).await {
@@ -393,6 +393,16 @@ impl Property for C02 {
                 p.add("g", members_gid.clone()).unwrap();
                 p.add("l", k64(&keys.l)).unwrap();
                 let _ = admin.mutate("mutate { sys.Room { id:$room authorisations:[{ id:$g users:[{verif_key:$l}] }] } }", Some(p)).await;
+            }
+            // F, who holds the all-rows right in R for ever, loses its rights in the other room at T_LATE: a row
+            // that F moves out of R2 later than that needs a right F no longer has there
+            {
+                Clock::advance(10);
+                let mut p = Parameters::new();
+                p.add("room", r2_64.clone()).unwrap();
+                p.add("g", r2_gid.clone()).unwrap();
+                p.add("f", k64(&keys.f)).unwrap();
+                let _ = admin.mutate("mutate { sys.Room { id:$room authorisations:[{ id:$g users:[{verif_key:$f enabled:false}] }] } }", Some(p)).await;
             }
             Clock::set(T_NOW);
             admin.recompute().await;
